@@ -23,7 +23,7 @@ TRACE: list = []          # events of the current call
 FAULT = [None]            # (kind, field, idx) of the callback that must raise, or None
 SELF = [None]             # the instance under construction / operated on
 SELF_CLASS = [None]       # if set: every instance of exactly this class canonicalises to "self"
-FIELD_NAMES = ["x", "y", "z", "_p", "a_b", "w"]
+FIELD_NAMES = ["x", "y", "z", "_p", "p", "a_b", "w"]   # `_p` and `p` share the derived alias
 UNSET = object()
 _TAG = [""]               # prefix captured by callbacks at creation time ("DECOY." while a decoy chain is built)
 
@@ -532,15 +532,18 @@ def gen_field(rng, name, frozen, rich=True):
 
 
 def gen_hspec(rng, depth=None, frozen=None, allow_exc=True, allow_plain=True):
-    depth = depth or rng.choice([1, 1, 2, 2, 3])
-    any_frozen = (rng.random() < 0.35) if frozen is None else frozen
+    # a targeted family: hooked attrs class <- plain class <- dict attrs class (the reset of an inherited
+    # attrs-made __setattr__ must look through the plain class)
+    force_mid = depth is None and frozen is None and allow_plain and rng.random() < 0.08
+    depth = 3 if force_mid else (depth or rng.choice([1, 1, 2, 2, 3]))
+    any_frozen = False if force_mid else ((rng.random() < 0.35) if frozen is None else frozen)
     exc_base = allow_exc and rng.random() < 0.15
     classes = []
     pool = list(FIELD_NAMES)
     frozen_so_far = False
     for lvl in range(depth):
         is_leaf = lvl == depth - 1
-        if not is_leaf and allow_plain and rng.random() < 0.15:
+        if not is_leaf and allow_plain and not (force_mid and lvl == 0) and (rng.random() < 0.15 or (force_mid and lvl == 1)):
             classes.append({"kind": "plain", "name": f"P{lvl}", "plain_slots": rng.random() < 0.3,
                             "pre": "none", "post": False})
             continue
@@ -571,7 +574,24 @@ def gen_hspec(rng, depth=None, frozen=None, allow_exc=True, allow_plain=True):
         if exc_base:
             cs["auto_exc"] = rng.choice([None, True, False]) if api in ("define", "frozen") else rng.choice([None, True])
         nf = rng.choice([0, 1, 2, 2, 3])
+        if force_mid and lvl == 0:
+            nf = max(nf, 1)
+            cs["cls_on_setattr"] = rng.choice(["hook", "hook", "validate", "convert", "pipeCV"])
+            if api == "frozen":
+                cs["api"] = api = "define"
+                cs["frozen"] = False
+        if force_mid and is_leaf:
+            cs["slots"] = False
+            if api == "frozen":
+                cs["api"] = api = "define"
+                cs["frozen"] = False
+            if rng.random() < 0.7:
+                cs["cls_on_setattr"] = "noop" if api == "define" else "unset"
+        if is_leaf and rng.random() < 0.1:
+            cs["init"] = False       # the initializer is then provided as __attrs_init__
         names = rng.sample(pool, nf)
+        if "_p" in names and "p" not in names and rng.random() < 0.3:
+            names.append("p")
         annotated = api in ("define", "frozen") and rng.random() < 0.5
         for n in names:
             f = gen_field(rng, n, frozen_here)
@@ -583,7 +603,7 @@ def gen_hspec(rng, depth=None, frozen=None, allow_exc=True, allow_plain=True):
             cs["fields"].append(f)
         # hash caching needs a generated hash and a generated init, and no auto_exc exception class
         auto_exc_eff = cs.get("auto_exc") if cs.get("auto_exc") is not None else api in ("define", "frozen")
-        if rng.random() < 0.2 and not (exc_base and auto_exc_eff):
+        if rng.random() < 0.2 and not (exc_base and auto_exc_eff) and cs.get("init") is not False:
             cs["cache_hash"] = True
             cs["unsafe_hash"] = True
         classes.append(cs)
@@ -592,8 +612,8 @@ def gen_hspec(rng, depth=None, frozen=None, allow_exc=True, allow_plain=True):
         classes[-1] = {"kind": "attrs", "name": "CL", "api": "attr.s", "slots": None, "frozen": False, "kw_only": False,
                        "cache_hash": False, "pre": "none", "post": False, "cls_on_setattr": "unset", "fields": []}
     # A plain class below an attrs class that installed a hooking __setattr__ hides that fact from a slotted
-    # subclass ("slotted confused", test_slotted_confused; known finding K6 of C06): keep that shape out of
-    # the construction properties by dropping such plain classes.
+    # subclass ("slotted confused", test_slotted_confused; known finding K6 of C06): keep exactly that shape
+    # (hooked attrs class <- plain class(es) <- slotted attrs class) out of the construction properties.
     def _hook_free(cs):
         if cs["kind"] != "attrs":
             return True
@@ -604,9 +624,13 @@ def gen_hspec(rng, depth=None, frozen=None, allow_exc=True, allow_plain=True):
             return False
         return all(f.get("on_setattr", "unset") in ("unset", "noop") for f in cs.get("fields", []))
     kept = []
-    for cs in classes:
+    for i, cs in enumerate(classes):
         if cs["kind"] == "plain" and not all(_hook_free(k) for k in kept):
-            continue
+            # only the *slotted* build looks at direct bases only; a dict class below the plain class finds
+            # the marker through the MRO and resets __setattr__, so that shape stays in
+            nxt = next((k for k in classes[i + 1:] if k["kind"] == "attrs"), None)
+            if nxt is None or leaf_slots(nxt):
+                continue
         kept.append(cs)
     classes = kept
     classes[0]["exc_base"] = exc_base
@@ -635,6 +659,16 @@ def gen_hspec(rng, depth=None, frozen=None, allow_exc=True, allow_plain=True):
                 for f in cs.get("fields", []):
                     lookup[f["name"]] = f
         ordered = [lookup[e["name"]] for e in exp]
+        # two init fields must not share a parameter name (`_p` and `p`): the later one leaves the signature
+        seen_alias = set()
+        for f in ordered:
+            if not f.get("init", True):
+                continue
+            al = f.get("alias") or default_alias(f["name"])
+            if al in seen_alias:
+                f["init"] = False
+            else:
+                seen_alias.add(al)
         # class-level kw_only makes everything keyword-only: nothing to repair then
         if not classes[i].get("kw_only"):
             had_default = False
